@@ -17,6 +17,10 @@ Rank clause, for all sizes: the generators at ALL stabilizer locations are indep
 `logicals_x`, `logicals_z` of the generic code model (`Model/Code.lean`, C02) assemble from this
 lattice model form a valid `[[3Lx²+3Lx+1, 1]]` stabilizer code (`ValidCodeL`: all four clauses of
 C01, rank included) for EVERY size of the family.
+
+The family of the rank clause is the whole list `(lattice Lx Ly).stabs`; the driver op `rankfamily` prints it
+and the stream `lat-Color666PlanarCode-rank-family` evaluates it on the IMPLEMENTATION's parity-check matrix
+on every run (members `n − k`, all distinct stabilizer locations, GF(2) rank `n − k`).
 -/
 import PanqecVerif.Proofs.Lat2DRankBridge
 import PanqecVerif.Proofs.LatColor666PlanarCodeRank
